@@ -1,7 +1,8 @@
 (* Extraction of the C16 models for the correspondence check. ExtrOcamlBasic only. *)
 From V.lib Require Import Base.
 From V.c13 Require Import C13Model.
-From V.c16 Require Import C16Model.
+From V.c15 Require Import C15Model.
+From V.c16 Require Import C16Model C16ParseModel.
 Require Import ExtrOcamlBasic.
 Separate Extraction
   avc_get_nalus_from_sample avc_find_nalu_types avc_find_nalu_types_upto
@@ -9,4 +10,5 @@ Separate Extraction
   convert_sample_to_byte_stream
   hevc_find_nalu_types hevc_find_nalu_types_upto hevc_contains_nalu_type
   hevc_is_rap_sample hevc_is_idr_sample hevc_has_parameter_sets hevc_get_parameter_sets
-  hpt_params decode_pic_timing_hevc.
+  hpt_params decode_pic_timing_hevc
+  c16_parse_sps c16_parse_pps c16_parse_slice sps_lookup pps_lookup chroma_lookup.
